@@ -127,6 +127,7 @@ static uint64_t run_twin(const TinyLP& t, const ConfigSpace::Cfg& cfg, bool exac
    churn_heap(3);
    A.clearBasis();
    std::string d3 = solve_digest(A, exact);
+   if(c.wantSample() && !exact) c.sample("{\"lp\":" + t.json() + ",\"config\":" + jstr(g_cs.str(cfg)) + ",\"digest_tail\":" + jstr(d1.substr(d1.find("|B"), 120)) + "}");
    if(d1 != d3) { c.violation(std::string("resolve-after-clearBasis-differs") + (exact ? ":exact" : "") + "@" + g_cs.str(cfg), cs, "first solve: " + d1.substr(d1.find("|B")) + " after clearBasis: " + d3.substr(d3.find("|B"))); return 2; }
    return fnv_str(d1);
 }
@@ -318,6 +319,7 @@ static uint64_t run_copy(const Hist& h, Ctx& c)
          }
    }
    c.state(std::to_string(hh));
+   if(c.wantSample() && h.ops.size() == 1) c.sample("{\"copy_point\":" + jstr(hist_pretty(h)) + ",\"probes_each_direction\":" + std::to_string(NPROBE + 1) + "}");
    return hh;
 }
 
